@@ -8,6 +8,10 @@ for d in /verif/seeded/*/; do
   prop=$(python3 -c "import json;print(json.load(open('$d/meta.json'))['breaks_property'])")
   /verif/tools/run_seeded.sh $d/patch.diff $prop $tier > /tmp/psv-seeded-run.log 2>&1; rc=$?
   sigs=$(grep -c "signature:" /tmp/psv-seeded-run.log)
-  if [ $rc -eq 1 ]; then echo "$id $prop detected ($sigs signature lines)" | tee -a $out; else echo "$id $prop MISSED (exit $rc)" | tee -a $out; fi
+  # exit 1 = violation reported; exit 2 with signature lines = violation reported and the run was additionally
+  # non-reproducible (e.g. a change that makes results depend on uninitialised memory): both are alarms
+  if [ $rc -eq 1 ] || { [ $rc -eq 2 ] && [ $sigs -gt 0 ]; }; then echo "$id $prop detected (exit $rc, $sigs signature lines)" | tee -a $out
+  elif [ $rc -eq 3 ]; then echo "$id $prop NOT-APPLICABLE (patch does not apply at HEAD: obsolete after a later fix)" | tee -a $out
+  else echo "$id $prop MISSED (exit $rc)" | tee -a $out; fi
 done
 rm -f /tmp/psv-seeded-run.log
